@@ -1965,15 +1965,20 @@ namespace xsimd
                 using int_batch = typename bitwise_cast_batch<T, A>::type;
                 using int_type = typename int_batch::value_type;
 
+                // the bit pattern of a negative value decreases when the value increases
                 static XSIMD_INLINE batch_type next(const batch_type& b) noexcept
                 {
-                    batch_type n = ::xsimd::bitwise_cast<T>(::xsimd::bitwise_cast<int_type>(b) + int_type(1));
+                    int_batch ib = ::xsimd::bitwise_cast<int_type>(b);
+                    batch_type n = ::xsimd::bitwise_cast<T>(select(ib < int_batch(int_type(0)), ib - int_type(1), ib + int_type(1)));
+                    n = select(b == batch_type(T(0)), ::xsimd::bitwise_cast<T>(int_batch(int_type(1))), n);
                     return select(b == constants::infinity<batch_type>(), b, n);
                 }
 
                 static XSIMD_INLINE batch_type prev(const batch_type& b) noexcept
                 {
-                    batch_type p = ::xsimd::bitwise_cast<T>(::xsimd::bitwise_cast<int_type>(b) - int_type(1));
+                    int_batch ib = ::xsimd::bitwise_cast<int_type>(b);
+                    batch_type p = ::xsimd::bitwise_cast<T>(select(ib < int_batch(int_type(0)), ib + int_type(1), ib - int_type(1)));
+                    p = select(b == batch_type(T(0)), -::xsimd::bitwise_cast<T>(int_batch(int_type(1))), p);
                     return select(b == constants::minusinfinity<batch_type>(), b, p);
                 }
             };
@@ -1982,8 +1987,9 @@ namespace xsimd
         XSIMD_INLINE batch<T, A> nextafter(batch<T, A> const& from, batch<T, A> const& to, requires_arch<generic>) noexcept
         {
             using kernel = detail::nextafter_kernel<T, A>;
-            return select(from == to, from,
-                          select(to > from, kernel::next(from), kernel::prev(from)));
+            auto r = select(from == to, to,
+                            select(to > from, kernel::next(from), kernel::prev(from)));
+            return select(isnan(from) || isnan(to), from + to, r);
         }
 
         // pow
